@@ -1,10 +1,237 @@
-//! C09 — not built yet.
-use crate::{sx::Sx, Emitter};
+//! C09 — auth-event selection and non-interference.
+//!
+//! case    = ( version event state oracle ( perturbed-state .. ) )     (event/state/oracle as in c08.rs)
+//!   perturbed-state = ( ( type key event? ) .. )  overrides of the base state; no event = key removed
+//! outcome = (0 ( selection? ( read .. ) verdict ( verdict .. ) ))
+//!   selection? = ( ) if `auth_types_for_event` failed, ( ( (type key) .. ) ) otherwise (the Vec, in order)
+//!   read       = the (type, state_key) pairs `auth_check` asked `fetch_state` for, in call order
+//!   verdict    = 0 accepted, 1 rejected, 2 panicked; base state first, then one per perturbed state
+use ruma_common::CanonicalJsonObject;
+use ruma_state_res::auth_types_for_event;
+use serde_json::json;
 
-pub fn run(_tier: &str, _seed: u64, _em: &mut Emitter) {}
+use crate::{
+    c08::{self, case_sx, cobj, mk_ev, run_auth, rules_of, Case, Ev, State, ALICE, BOB, CREATOR, DAVE, EVE, ROOM},
+    sx::Sx,
+    Emitter,
+};
 
-pub fn replay(_case: &Sx) -> Option<Sx> {
-    None
+type Key = (String, String);
+type Overrides = Vec<(Key, Option<Ev>)>;
+
+fn key_sx(k: &Key) -> Sx {
+    Sx::L(vec![Sx::s(&k.0), Sx::s(&k.1)])
+}
+
+fn selection(c: &Case) -> Option<Vec<Key>> {
+    let rules = rules_of(c.v);
+    auth_types_for_event(&c.ev.ty, &c.ev.sender, c.ev.skey.as_deref(), &c.ev.raw, &rules)
+        .ok()
+        .map(|v| v.into_iter().map(|(t, k)| (t.to_string(), k)).collect())
+}
+
+fn apply(base: &State, ov: &Overrides) -> State {
+    let mut st: State = vec![];
+    for (k, e) in ov {
+        if st.iter().any(|(k2, _)| k2 == k) {
+            continue;
+        }
+        if let Some(e) = e {
+            st.push((k.clone(), e.clone()));
+        }
+    }
+    for (k, e) in base {
+        if ov.iter().any(|(k2, _)| k2 == k) || st.iter().any(|(k2, _)| k2 == k) {
+            continue;
+        }
+        st.push((k.clone(), e.clone()));
+    }
+    st
+}
+
+fn hostile_content(ty: &str, current: Option<&Ev>, variant: usize) -> CanonicalJsonObject {
+    let cur_str = |f: &str| -> Option<String> {
+        current.and_then(|e| e.content.get(f)).and_then(|v| v.as_str()).map(str::to_owned)
+    };
+    match ty {
+        "m.room.member" => {
+            let m = match (cur_str("membership").as_deref(), variant) {
+                (Some("join"), 0) => "ban",
+                (Some("ban"), 0) => "join",
+                (_, 0) => "join",
+                (Some("invite"), _) => "leave",
+                _ => "invite",
+            };
+            cobj(json!({"membership": m}))
+        }
+        "m.room.join_rules" => {
+            let j = match (cur_str("join_rule").as_deref(), variant) {
+                (Some("public"), _) => "invite",
+                (_, 0) => "public",
+                _ => "knock",
+            };
+            cobj(json!({"join_rule": j}))
+        }
+        "m.room.power_levels" => {
+            if variant == 0 {
+                cobj(json!({"users_default": 100, "invite": 100, "kick": 100, "ban": 100, "redact": 100,
+                            "state_default": 100, "events_default": 100}))
+            } else {
+                cobj(json!({"users_default": 100, "invite": 0, "kick": 0, "ban": 0, "redact": 0,
+                            "state_default": 0, "events_default": 0, "users": {}}))
+            }
+        }
+        "m.room.create" => cobj(json!({"creator": EVE, "m.federate": false})),
+        _ => cobj(json!({"public_key": "AAAA", "public_keys": 5})),
+    }
+}
+
+fn candidates() -> Vec<Key> {
+    let mut out = vec![];
+    for u in [ALICE, BOB, CREATOR, DAVE, EVE, "@zed:s1"] {
+        out.push(("m.room.member".to_owned(), u.to_owned()));
+    }
+    for t in ["m.room.join_rules", "m.room.power_levels", "m.room.create"] {
+        out.push((t.to_owned(), String::new()));
+        out.push((t.to_owned(), "x".to_owned()));
+    }
+    for k in ["tok", "tok2", ""] {
+        out.push(("m.room.third_party_invite".to_owned(), k.to_owned()));
+    }
+    out.push(("m.room.topic".to_owned(), String::new()));
+    out
+}
+
+/// Perturbations of the state outside `protect`: remove everything else; add or replace with
+/// entries chosen to flip a verdict that looked at them (two variants); make everything else malformed.
+fn perturbations(c: &Case, protect: &[Key]) -> Vec<Overrides> {
+    let is_protected = |k: &Key| protect.contains(k);
+    let mut remove: Overrides = vec![];
+    let mut garble: Overrides = vec![];
+    for (k, e) in &c.state {
+        if !is_protected(k) && !remove.iter().any(|(k2, _)| k2 == k) {
+            remove.push((k.clone(), None));
+            let mut g = e.clone();
+            g.set_content(cobj(json!({"membership": 5, "join_rule": 5, "users": 5, "creator": 5, "m.federate": 5,
+                                      "public_key": 5, "events": 5, "ban": "x"})));
+            garble.push((k.clone(), Some(g)));
+        }
+    }
+    let mut hostile = vec![vec![], vec![]];
+    for (variant, h) in hostile.iter_mut().enumerate() {
+        for k in candidates() {
+            if is_protected(&k) {
+                continue;
+            }
+            let cur = c08::state_get(&c.state, &k.0, &k.1);
+            let sender = if k.0 == "m.room.member" && k.1.starts_with('@') { k.1.clone() } else { EVE.to_owned() };
+            let e = mk_ev(&c08::eid(c.v, &format!("p{}{}", variant, h.len())), ROOM, &sender, &k.0, Some(&k.1),
+                          hostile_content(&k.0, cur, variant));
+            h.push((k, Some(e)));
+        }
+    }
+    let mut out = vec![remove];
+    out.append(&mut hostile);
+    out.push(garble);
+    out
+}
+
+fn overrides_sx(ov: &Overrides) -> Sx {
+    Sx::L(ov.iter().map(|((t, k), e)| Sx::L(vec![Sx::s(t), Sx::s(k), Sx::opt(e.as_ref().map(c08::ev_to_sx))])).collect())
+}
+
+fn verdict(out: &Sx) -> Sx {
+    match out {
+        Sx::L(l) => l.first().cloned().unwrap_or(Sx::N(2)),
+        _ => Sx::N(2),
+    }
+}
+
+/// Run one case with the given perturbations.
+fn run_one(c: &Case, pert: &[Overrides]) -> (Sx, Sx) {
+    let sel = selection(c);
+    let (out, reads) = run_auth(c.v, &c.ev, &c.state);
+    let mut pv = vec![];
+    let mut states: Vec<State> = vec![];
+    for ov in pert {
+        let st = apply(&c.state, ov);
+        pv.push(verdict(&run_auth(c.v, &c.ev, &st).0));
+        states.push(st);
+    }
+    // the signature oracle must cover the third-party-invite events of every state
+    let mut all: State = c.state.clone();
+    for st in &states {
+        for (k, e) in st {
+            if k.0 == "m.room.third_party_invite" {
+                all.push((k.clone(), e.clone()));
+            }
+        }
+    }
+    let mut case = match case_sx(c) {
+        Sx::L(l) => l,
+        _ => unreachable!(),
+    };
+    case[3] = c08::oracle(&c.ev, &all);
+    case.push(Sx::L(pert.iter().map(overrides_sx).collect()));
+    let outcome = Sx::ok(Sx::L(vec![
+        Sx::opt(sel.as_ref().map(|s| Sx::L(s.iter().map(key_sx).collect()))),
+        Sx::L(reads.iter().map(key_sx).collect()),
+        verdict(&out),
+        Sx::L(pv),
+    ]));
+    (Sx::L(case), outcome)
+}
+
+pub fn run(tier: &str, seed: u64, em: &mut Emitter) {
+    let mut n: u64 = 0;
+    let thorough = tier == "thorough";
+    let mut sink = |tag: &str, c: &Case| {
+        if tag == "sys-type-alias" {
+            // open finding C08-type-alias (event-type alias in `events` keys) belongs to C08
+            return;
+        }
+        n += 1;
+        // the quick tier takes every other case of C08's stream
+        if !thorough && n % 2 == 0 {
+            return;
+        }
+        let protect: Vec<Key> = match selection(c) {
+            Some(s) => s,
+            None => {
+                // selection undefined: keep what the check itself looked at
+                let (_, reads) = run_auth(c.v, &c.ev, &c.state);
+                reads
+            }
+        };
+        let pert = perturbations(c, &protect);
+        let (case, out) = run_one(c, &pert);
+        let accepted = matches!(&out, Sx::L(l) if matches!(l.get(1), Some(Sx::L(m)) if m.get(2) == Some(&Sx::N(0))));
+        em.emit(&format!("{tag}/{}", if accepted { "accepted" } else { "rejected" }), case, out);
+    };
+    c08::generate(tier, seed ^ 0xC09, &mut sink);
+}
+
+fn sx_to_overrides(x: &Sx) -> Option<Overrides> {
+    let mut out = vec![];
+    for it in x.as_list()? {
+        let l = it.as_list()?;
+        let e = match l.get(2)?.as_opt()? {
+            None => None,
+            Some(e) => Some(c08::sx_to_ev(e)?),
+        };
+        out.push(((l.first()?.as_string()?, l.get(1)?.as_string()?), e));
+    }
+    Some(out)
+}
+
+pub fn replay(case: &Sx) -> Option<Sx> {
+    let c = c08::sx_to_case(case)?;
+    let l = case.as_list()?;
+    let mut pert = vec![];
+    for p in l.get(4)?.as_list()? {
+        pert.push(sx_to_overrides(p)?);
+    }
+    Some(run_one(&c, &pert).1)
 }
 
 pub fn dump(_dir: &str) {}
